@@ -683,8 +683,11 @@ def hostGateRejects (r : Req) : Bool :=
 /-- `protocolVersion := header; if "" then 2025-03-26` (servePOST). -/
 def effVersion (v : Bytes) : Bytes := if v = [] then protocolVersion20250326 else v
 
-/-- The per-message part of the loop of `servePOST` (`none` = the message passes). -/
-def msgGate (stateless : Bool) (version : Bytes) (m : Msg) : Option Outcome :=
+/-- The per-message part of the loop of `servePOST` (`none` = the message passes).  `isBatch` is the flag `readBatch`
+returned for the body (a JSON array, of any length ≥ 1): it is in scope in the loop, and the regenerated condition
+`perRequestMetaApplies` is given it; the theorems `meta_gate_ignores_batch` / `msgGate_ignores_batch` (Props.lean) state
+that the SEP-2575 block does not consult it. -/
+def msgGate (stateless isBatch : Bool) (version : Bytes) (m : Msg) : Option Outcome :=
   if !m.isReq then none else
   let pv := effVersion version
   match m.check with
@@ -692,7 +695,7 @@ def msgGate (stateless : Bool) (version : Bytes) (m : Msg) : Option Outcome :=
     if methodNotFoundAs404 pv && m.isCall then some (rejRpc 404 codeMethodNotFound) else some (rej 400)
   | .invalid => some (rej 400)
   | .ok =>
-    if perRequestMetaApplies pv m.metaVersion then
+    if perRequestMetaApplies isBatch pv m.metaVersion then
       if !stateless && m.method ≠ methodDiscover then some (rejRpc 400 codeUnsupportedProtocolVersion)
       else if version = [] then some (rejRpc 400 codeHeaderMismatch)
       else if m.metaVersion = [] then some (rejRpc 400 codeInvalidParams)
@@ -707,7 +710,10 @@ def soleMsg (r : Req) : Option Msg :=
   | _ => none
 
 /-- `streamableServerConn.servePOST` from the top to the enqueue.  `bodyRead` = the handler has already read the
-body (stateless: `ephemeralConnectOpts`), so the 413 arm cannot fire here. -/
+body (stateless: `ephemeralConnectOpts`), so the 413 arm cannot fire here.  Gate order after the body is read:
+`readBatch` (malformed ⇒ 400; it also yields `isBatch`), the batch gate (`isBatch` and header version ≥ 2025-06-18 ⇒ 400),
+the per-message loop over ALL messages of the body in order (first failing message answers), and only then — for
+`!isBatch && len(incoming) == 1` — the standard-header mirror. -/
 def servePOST (c : B64) (stateless bodyRead : Bool) (r : Req) : Outcome :=
   if r.lastEventId then rej 400
   else match (if bodyRead then none else bodyGate r) with
@@ -718,7 +724,7 @@ def servePOST (c : B64) (stateless bodyRead : Bool) (r : Req) : Outcome :=
     | .malformed => rej 400
     | .msgs isBatch l =>
       if batchGateRejects isBatch (effVersion r.version) then rej 400
-      else match l.findSome? (msgGate stateless r.version) with
+      else match l.findSome? (msgGate stateless isBatch r.version) with
         | some o => o
         | none =>
           let hdr : Option MErr := match soleMsg r with
